@@ -7,7 +7,10 @@ Generators : (a) vlib.pygen programs rendered by CPython's unparser and restyled
              (b) xonsh sources from vlib.c17_xgen: command lines over an awkward word alphabet
              (`k=v` `a,b` `a:b` `x==1` `a#b`, flags, strings, `$X`, `${..}`, `@(..)`, `$(..)`,
              search paths, redirects, env prefixes, pipes, && / ||, `&`, backslash continuations),
-             alias / function / block macros, captures nested in Python, `![..]` with odd spacing;
+             alias / function / block macros, captures nested in Python, `![..]` with odd spacing; one piece of raw
+             alias- or function-macro text in six holds a token that spans several physical lines (triple-quoted
+             string / f-string with any prefix, 2-5 lines, or a backslash-continued string; starting at any column)
+             followed on its closing line by blanks and more raw text (`echo! a   '''x<newline>y'''   tail  x`);
              (c) mixtures of (a) and (b) in nested blocks at every indent depth;
              (d) real text: every *.xsh under the repository, the xonsh code blocks of docs/*.rst,
              the inputs of xonsh's own parser and formatter tests, and a sample of stdlib statements;
